@@ -707,16 +707,25 @@ fn utf16(s: &str) -> Vec<u8> {
     s.encode_utf16().flat_map(|u| u.to_le_bytes()).collect()
 }
 
-/// MS-OVBA 2.3.4.2 dir stream
-fn build_dir(p: &ProjSpec, rng: &mut Rng) -> Vec<u8> {
+/// MS-OVBA 2.3.4.2 dir stream, built here independently of the Lean encoder; the second component is the
+/// same project description in the wire form of the driver's `dirser` (the Lean `serDir` must give the same bytes)
+fn build_dir(p: &ProjSpec, rng: &mut Rng) -> (Vec<u8>, String) {
     let mut o = vec![];
+    let mut w: Vec<String> = vec![];
     rec(&mut o, 0x0001, &1u32.to_le_bytes()); // PROJECTSYSKIND
+    w.push("1".into());
     if p.compat {
         rec(&mut o, 0x004A, &3u32.to_le_bytes()); // PROJECTCOMPATVERSION
+        w.push("3".into());
+    } else {
+        w.push("~".into());
     }
     rec(&mut o, 0x0002, &0x409u32.to_le_bytes()); // PROJECTLCID
     rec(&mut o, 0x0014, &0x409u32.to_le_bytes()); // PROJECTLCIDINVOKE
     rec(&mut o, 0x0003, &p.cp.to_le_bytes()); // PROJECTCODEPAGE
+    w.push("1033".into());
+    w.push("1033".into());
+    w.push(p.cp.to_string());
     let pname = cp_string(p.cp, rng.range(1, 12) as usize, false, rng);
     rec(&mut o, 0x0004, &pname.0);
     let doc = cp_string(p.cp, rng.below(20) as usize, false, rng);
@@ -729,11 +738,14 @@ fn build_dir(p: &ProjSpec, rng: &mut Rng) -> Vec<u8> {
     rec(&mut o, 0x0008, &0u32.to_le_bytes()); // PROJECTLIBFLAGS
     o.extend_from_slice(&0x0009u16.to_le_bytes()); // PROJECTVERSION
     o.extend_from_slice(&4u32.to_le_bytes());
-    o.extend_from_slice(&(rng.next() as u32).to_le_bytes());
-    o.extend_from_slice(&(rng.next() as u16).to_le_bytes());
+    let (vmaj, vmin) = (rng.next() as u32, rng.next() as u16);
+    o.extend_from_slice(&vmaj.to_le_bytes());
+    o.extend_from_slice(&vmin.to_le_bytes());
     let consts = cp_string(p.cp, rng.below(12) as usize, true, rng);
     rec(&mut o, 0x000C, &consts.0);
     rec(&mut o, 0x003C, &utf16(&consts.1));
+    w.extend([hex(&pname.0), hex(&doc.0), hex(&utf16(&doc.1)), hex(&help.0), hex(&help.0), "0".into(), "0".into(), vmaj.to_string(), vmin.to_string(), hex(&consts.0), hex(&utf16(&consts.1)), "65535".into()]);
+    let mut wrefs: Vec<String> = vec![];
     for r in &p.refs {
         rec(&mut o, 0x0016, &r.name.0);
         rec(&mut o, 0x003E, &utf16(&r.name.1));
@@ -741,6 +753,7 @@ fn build_dir(p: &ProjSpec, rng: &mut Rng) -> Vec<u8> {
         libid.extend_from_slice(&r.path.0);
         libid.push(b'#');
         libid.extend_from_slice(&r.desc.0);
+        let head = format!("{}:{}", hex(&r.name.0), hex(&utf16(&r.name.1)));
         match r.kind {
             0 => {
                 o.extend_from_slice(&0x000Du16.to_le_bytes());
@@ -748,6 +761,7 @@ fn build_dir(p: &ProjSpec, rng: &mut Rng) -> Vec<u8> {
                 o.extend_from_slice(&(libid.len() as u32).to_le_bytes());
                 o.extend_from_slice(&libid);
                 o.extend_from_slice(&[0; 6]);
+                wrefs.push(format!("{head}:G:{}", hex(&libid)));
             }
             1 => {
                 let mut abs = b"*\\C".to_vec();
@@ -760,15 +774,13 @@ fn build_dir(p: &ProjSpec, rng: &mut Rng) -> Vec<u8> {
                 o.extend_from_slice(&(rel.len() as u32).to_le_bytes());
                 o.extend_from_slice(&rel);
                 o.extend_from_slice(&[1, 0, 0, 0, 2, 0]);
+                wrefs.push(format!("{head}:P:{}:{}:1:2", hex(&abs), hex(&rel)));
             }
             _ => {
                 if r.kind == 3 {
                     rec(&mut o, 0x0033, &libid); // REFERENCEORIGINAL
                 }
-                let twiddled = b"*\\G{11111111-0000-0000-C000-000000000046}#2.0#0#twiddled.tlb#".to_vec();
-                // ends with '#' + empty description? keep a real one so the final description is the extended libid's
-                let mut tw = twiddled.clone();
-                tw.extend_from_slice(b"tw");
+                let tw = b"*\\G{11111111-0000-0000-C000-000000000046}#2.0#0#twiddled.tlb#tw".to_vec();
                 o.extend_from_slice(&0x002Fu16.to_le_bytes());
                 o.extend_from_slice(&((tw.len() + 10) as u32).to_le_bytes());
                 o.extend_from_slice(&(tw.len() as u32).to_le_bytes());
@@ -783,15 +795,21 @@ fn build_dir(p: &ProjSpec, rng: &mut Rng) -> Vec<u8> {
                 o.extend_from_slice(&(libid.len() as u32).to_le_bytes());
                 o.extend_from_slice(&libid);
                 o.extend_from_slice(&[0; 6]);
-                o.extend(rng.bytes(16));
-                o.extend_from_slice(&(rng.next() as u32).to_le_bytes());
+                let guid = rng.bytes(16);
+                let cookie = rng.next() as u32;
+                o.extend_from_slice(&guid);
+                o.extend_from_slice(&cookie.to_le_bytes());
+                let (orig, en, eu) = if r.kind == 3 { (hex(&libid), hex(&r.name.0), hex(&utf16(&r.name.1))) } else { ("~".into(), "~".into(), "~".into()) };
+                wrefs.push(format!("{head}:C:{orig}:{}:{en}:{eu}:{}:{}:{cookie}", hex(&tw), hex(&libid), hex(&guid)));
             }
         }
     }
+    w.push(if wrefs.is_empty() { "-".into() } else { wrefs.join(";") });
     o.extend_from_slice(&0x000Fu16.to_le_bytes()); // PROJECTMODULES
     o.extend_from_slice(&2u32.to_le_bytes());
     o.extend_from_slice(&(p.mods.len() as u16).to_le_bytes());
     rec(&mut o, 0x0013, &0xFFFFu16.to_le_bytes()); // PROJECTCOOKIE
+    let mut wmods: Vec<String> = vec![];
     for m in &p.mods {
         rec(&mut o, 0x0019, &m.name.0);
         rec(&mut o, 0x0047, &utf16(&m.name.1));
@@ -811,9 +829,15 @@ fn build_dir(p: &ProjSpec, rng: &mut Rng) -> Vec<u8> {
             rec(&mut o, 0x0028, &[]);
         }
         rec(&mut o, 0x002B, &[]);
+        wmods.push(format!(
+            "{}:{}:{}:{}:{}:{}:{}:0:65535:{}:{}:{}",
+            hex(&m.name.0), hex(&utf16(&m.name.1)), hex(&m.stream.0), hex(&utf16(&m.stream.1)), hex(&d.0), hex(&utf16(&d.1)),
+            m.offset, m.doc as u8, m.readonly as u8, m.private as u8
+        ));
     }
+    w.push(if wmods.is_empty() { "-".into() } else { wmods.join(";") });
     rec(&mut o, 0x0010, &[]);
-    o
+    (o, w.join(" "))
 }
 
 fn gen_project(rng: &mut Rng) -> ProjSpec {
@@ -1008,7 +1032,12 @@ fn compress_stream(cx: &mut Ctx, data: &[u8], rng: &mut Rng) -> Option<Vec<u8>> 
 
 fn run_project(cx: &mut Ctx, rng: &mut Rng) {
     let p = gen_project(rng);
-    let dir = build_dir(&p, rng);
+    let (dir, dir_wire) = build_dir(&p, rng);
+    // the Lean spec encoder (the bytes `dir_walk` is about) must lay the same project out as the same bytes
+    let lean_dir = cx.drv.ask(&format!("dirser {dir_wire}"));
+    if lean_dir != format!("1 {}", hex(&dir)) {
+        cx.rep.fail("model_vs_spec", "dir-encoders-disagree", &dir_wire, &hex(&dir), &lean_dir, "");
+    }
     // oracle for the dir walk
     let mut expect_dir = String::new();
     let mut expect_proj = String::new();
@@ -1104,7 +1133,7 @@ fn run_project(cx: &mut Ctx, rng: &mut Rng) {
 /// single faults on a valid dir stream (C06 territory; outcome classes impl vs model)
 fn run_dir_malformed(cx: &mut Ctx, rng: &mut Rng) {
     let p = gen_project(rng);
-    let dir = build_dir(&p, rng);
+    let (dir, _) = build_dir(&p, rng);
     let mut v = dir.clone();
     let kind = match rng.below(5) {
         0 => {
